@@ -2610,6 +2610,27 @@ func scanFlagNest(c *core.Ctx) []ob {
 			if !inThen && !inElse {
 				return true
 			}
+			// a later link of a chain whose earlier links already looked at the other flag (`case A && B: … case A: …
+			// case B: … default:` — in the second link B is known to be false): the combinations are enumerated by the
+			// chain, not by nesting
+			pm := parentMapCached(fd)
+			chained := false
+			for cur := ast.Node(outer); ; {
+				par, ok := pm[cur].(*ast.IfStmt)
+				if !ok || par.Else != cur {
+					break
+				}
+				ast.Inspect(par.Cond, func(y ast.Node) bool {
+					if se, ok := y.(*ast.SelectorExpr); ok && se.Sel.Name == other && exprString(se.X) == owner {
+						chained = true
+					}
+					return !chained
+				})
+				cur = par
+			}
+			if chained {
+				return true
+			}
 			n++
 			key := fmt.Sprintf("FLAGNEST:%s#%s.%s/%s", fkey, owner, flag, other)
 			if inThen && inElse {
